@@ -3,6 +3,7 @@ import Driver.C03
 import Driver.C04
 import Driver.C15
 import Driver.C16
+import Driver.C17
 import Driver.Client
 import Driver.C06
 import Driver.C10
@@ -43,6 +44,12 @@ def dispatch (line : String) : String :=
     | "hval" => C02.hvalOp false args
     | "hvalrt" => C02.hvalOp true args
     | "hname" => C02.hnameOp args
+    | "mbox" => C17.mboxOp args
+    | "mboxlist" => C17.mboxlistOp args
+    | "mboxparse" => C17.mboxparseOp args
+    | "date" => C17.dateOp args
+    | "typed" => C17.typedOp args
+    | "build" => C17.buildOp args
     | "hdrs" => C02.hdrsOp args
     | "crlf" => C10.simpleOp LV.BodyEnc.crlfNormalize "crlf" args
     | "qp" => C10.qpOp args
